@@ -25,10 +25,12 @@ def run(c):
         # the guarded values are harmless)
         probes = cj.probe_lines(sc, items)
         skip = set()
-        for l, a, _ in c.tie("probe:" + sc.sid, probes, sc.impl, model, prefix=pre):
+        for l, a, mo in c.tie("probe:" + sc.sid, probes, sc.impl, model, prefix=pre):
             if a == "panic":
                 skip.add(l.split(" ")[3])
                 c.oracle_fail(l, "WriteJSON panics (nil pointer) on the value ReadJSON produced from `{}`: JSON round trip impossible for this type", l)
+            elif a != mo:
+                c.oracle_fail(l + " [probe answer]", "`{}` probe: implementation answers %s, model %s" % (a[:100], mo[:100]), l)
         rp = sorted({l for l in cj.replay_lines(c) if isinstance(l, str) and l.split(" ")[1:2] == [sc.sid]})
         for l, a, _ in c.tie("replay:" + sc.sid, rp, sc.impl, model, prefix=pre):
             if l.startswith("codec.xj "):
@@ -37,13 +39,19 @@ def run(c):
                 c.oracle_fail(l, "generated code panics", l)
         fixed = cj.fixed_lines(sc)
         exp = {l: (e, n) for l, e, n in fixed}
-        for l, a, _ in c.tie("fixed:" + sc.sid, sorted(exp), sc.impl, model, prefix=pre):
+        for l, a, mo in c.tie("fixed:" + sc.sid, sorted(exp), sc.impl, model, prefix=pre):
             e, note = exp[l]
             before = len(c.oracle_failures)
             cj.oracle_c05(c, l, a)
             failed = len(c.oracle_failures) > before
             if e != "ok" and not failed:
                 c.notes.append("witness of known finding %s (%s) no longer fails: %s" % (e, note, l[:120]))
+            if e != "ok" and failed and not cj.known_answer_ok(e, a, mo):
+                # the witness line fails, but not the way the known finding describes: that is a different defect
+                c.oracle_fail(l + " [answer differs from known finding %s]" % e,
+                              "witness line of known finding %s now answers %s (model %s)" % (e, a[:100], mo[:100]), l)
+            if e == "ok" and a != mo:
+                c.oracle_fail(l, "implementation and model disagree on a fixed value (%s): %s vs %s" % (note, a[:100], mo[:100]), l)
             c.count("fixed:" + e + (":fails" if failed else ":passes"))
         # phase 1: random stream within the guard
         g = cj.GenJ(sc, rng.fork(), big=c.thorough)
